@@ -49,7 +49,9 @@ def plan(tier, seed):
 
 def required(tier):
     cl = [f'range:{k}' for k in ('single', 'week', 'dst-spring', 'dst-autumn', 'months', 'year',
-                                 'open-from', 'open-to', 'open-both')]
+                                 'open-from', 'open-to', 'open-both',
+                                 'open-to-from-previous-year', 'open-from-to-next-year')]
+    cl += ['airport:patch-file']
     cl += [f'skip:{k}' for k in ('service', 'stops', 'non-operating', 'equipment',
                                  'unknown-airport', 'distance')]
     cl += ['accepted', 'offset:-1', 'offset:0', 'offset:1', 'offset:2', 'instances:dropped',
@@ -159,6 +161,10 @@ def one_batch(rng, hdir: Path, w: dict, rec, k, nrows, case0):
             model = swapped_model_accepts(w[h['dep']], w[h['arr']], h['given_km'])
             what = ('a plausible row was dropped' if should else
                     'a row with an implausible distance was imported')
+            if should and warnings.get(line) == 'unknown airport code':
+                raise Mismatch('a row between known airports was dropped as "unknown airport"',
+                               {'airports': [h['dep'], h['arr']],
+                                'tags': [w[h['dep']]['tag'], w[h['arr']]['tag']], **case})
             if model is not None and model == present:
                 rec.finding(KF_DIST,
                             'the distance plausibility rule computes the great-circle distance '
@@ -246,6 +252,8 @@ def one_batch(rng, hdir: Path, w: dict, rec, k, nrows, case0):
             if warnings.get(line) != 'arrival time before departure time':
                 raise Mismatch('instances were dropped without a time-misordering warning',
                                {'warning': warnings.get(line), **det})
+        if 'patch' in (w[h['dep']]['tag'], w[h['arr']]['tag']):
+            rec.cls('airport:patch-file')
         rec.cls('accepted', f'range:{h["range_kind"]}', f'offset:{h["offset"]}',
                 f'margin:{h["margin"]}')
         if tz_o != tz_d:
